@@ -113,14 +113,22 @@ func (s *scripted) OnReceive(ctx context.Context, headers api.HeaderMap, buf buf
 	s.ex.add(fmt.Sprintf("f:%d:%s", s.index, s.spec.Phase.letter()))
 	v := s.verdict()
 	if v.Hijack != 0 {
+		hh := headers
+		if v.ReplyHeaders != nil {
+			hh = protocol.CommonHeader(v.ReplyHeaders)
+		}
 		if v.HijackBody != "" {
-			s.rh.SendHijackReplyWithBody(v.Hijack, headers, v.HijackBody)
+			s.rh.SendHijackReplyWithBody(v.Hijack, hh, v.HijackBody)
 		} else {
-			s.rh.SendHijackReply(v.Hijack, headers)
+			s.rh.SendHijackReply(v.Hijack, hh)
 		}
 	}
 	if v.Direct {
-		s.rh.SendDirectResponse(protocol.CommonHeader{}, nil, nil)
+		dh := protocol.CommonHeader{}
+		if v.ReplyHeaders != nil {
+			dh = protocol.CommonHeader(v.ReplyHeaders)
+		}
+		s.rh.SendDirectResponse(dh, nil, nil)
 	}
 	if v.Do != nil {
 		v.Do(s.ex, s.rh, nil)
